@@ -174,6 +174,7 @@ func TestC04(t *testing.T) {
 	runChain(t, &chainSpec{prop: "C04", pRestart: 3,
 		profile: func() *Profile {
 			p := defaultProfile()
+			p.Crowd = 6
 			p.MinBlocks, p.MaxBlocks = 6, 20
 			p.MaxTxs = 9
 			p.W["replay"] = 14
@@ -214,6 +215,7 @@ func TestC16(t *testing.T) {
 	runChain(t, &chainSpec{prop: "C16", pRestart: 3,
 		profile: func() *Profile {
 			p := defaultProfile()
+			p.Crowd = 6
 			p.MinBlocks, p.MaxBlocks = 8, 26
 			p.MaxTxs = 12
 			p.PFault = 16
@@ -263,6 +265,7 @@ func TestC02(t *testing.T) {
 	runChain(t, &chainSpec{prop: "C02", pRestart: 4,
 		profile: func() *Profile {
 			p := defaultProfile()
+			p.Crowd = 6
 			p.MinBlocks, p.MaxBlocks = 10, 40
 			p.MaxTxs = 8
 			p.W["stake"], p.W["unstake"], p.W["withdraw"] = 18, 14, 10
@@ -284,6 +287,7 @@ func TestC11(t *testing.T) {
 	runChain(t, &chainSpec{prop: "C11", pRestart: 4,
 		profile: func() *Profile {
 			p := defaultProfile()
+			p.Crowd = 6
 			p.MinBlocks, p.MaxBlocks = 8, 30
 			p.MaxTxs = 10
 			p.W["stake"], p.W["unstake"] = 30, 22
@@ -305,6 +309,7 @@ func TestC12(t *testing.T) {
 	runChain(t, &chainSpec{prop: "C12", pRestart: 4,
 		profile: func() *Profile {
 			p := defaultProfile()
+			p.Crowd = 6
 			p.MinBlocks, p.MaxBlocks = 10, 40
 			p.MaxTxs = 8
 			p.W["stake"], p.W["unstake"] = 24, 26
